@@ -58,9 +58,11 @@ def create_detector_directions() -> DetectorArray:
 def create_acquisition(
     landscape: HealpixLandscape, samplings: Sampling, detector_dirs: DetectorArray
 ) -> AbstractLinearOperator:
-    tod_shape = len(detector_dirs), len(samplings)
     proj = create_projection_operator(landscape, samplings, detector_dirs)
-    hwp = HWPOperator(proj.out_structure())
-    polarizer = LinearPolarizerOperator.create(tod_shape, stokes=landscape.stokes)
+    # the time-ordered structure is the one the projection produces: its shape has a direction axis
+    # when there are several directions per detector, and its dtype follows the landscape
+    tod_structure = proj.out_structure()
+    hwp = HWPOperator(tod_structure)
+    polarizer = LinearPolarizerOperator(tod_structure)
     acquisition: AbstractLinearOperator = polarizer @ hwp @ proj
     return acquisition.reduce()
